@@ -129,6 +129,10 @@ pub struct Scenario {
     /// every local input is registered twice per tick: a decoy first, then the real value (the last one counts)
     #[serde(default)]
     pub double_submit: bool,
+    /// the games' checksums cover one bit of the state only (legal: a checksum need not be injective), so
+    /// different states of the same frame often share a checksum
+    #[serde(default)]
+    pub weak_checksum: bool,
 }
 
 impl Scenario {
@@ -172,6 +176,7 @@ impl Scenario {
             own_snapshots: false,
             resubmit_varies: false,
             double_submit: false,
+            weak_checksum: false,
         }
     }
 }
